@@ -11,22 +11,34 @@ package disasm
 //@ global pos ghost:Int
 //@ global scanErr ghost:I.error
 //@ global fstart ghost:Int
+// Monotonicity (C16, last clause): `cut` is an arbitrary number of lines; (snapArr, snapLen) is the value of the result
+// list at the moment exactly `cut` lines had been consumed. The loop invariant @cut says that from then on the list
+// only grows behind that value; the run is deterministic (clauses `deterministic`, read-only tables), so the state
+// after `cut` lines is the result of the run on the text that ends there.
+//@ global cut ghost:Int
+//@ global snapLen ghost:Int
+//@ global snapArr ghost:(Array Int disasm.Syscall)
 
 //@ func lastInstruction(instructions []string) string   properties C16
+//@   deterministic C16
 //@   ensures @value len(instructions) >= 2 ==> result == instructions[len(instructions) - 2]
 //@   ensures @short len(instructions) < 2 ==> result == ""
 
 //@ func isSyscallFunction(function string) bool   properties C16
+//@   deterministic C16
 
 //@ func (p *parser) isFunctionCall(line string) bool   properties C16
+//@   deterministic C16
 //@   requires p != nil
 //@   ensures result == contains(line, p.callOp)
 
 //@ func (p *parser) isRawSyscall(line string) bool   properties C16
+//@   deterministic C16
 //@   requires p != nil
 //@   ensures @some result ==> exists(j, 0, len(p.rawSyscallInstructions), contains(line, p.rawSyscallInstructions[j]))
 
 //@ func findSyscallNum(instructions []string, syscall *Syscall, matchers ...*regexp.Regexp) error   properties C16
+//@   deterministic C16
 //@   requires syscall != nil
 //@   modifies syscall
 //@   ensures @scope {C16} result == nil ==> exists(j, 0, len(instructions), contains(instructions[j], syscall.Assembly))
@@ -38,14 +50,19 @@ package disasm
 //@     invariant @struct syscall != nil && 0 <= i && i < len(instructions) && line == instructions[i] && syscall.Location == old(syscall.Location) && syscall.Function == old(syscall.Function)
 
 //@ func parseX86_64(p *parser, line, caller string, instructions []string) (*Syscall, error)   properties C16
+//@   deterministic C16
 //@   requires p != nil
 //@   ensures @scope {C16} result0 != nil ==> result1 == nil && (exists(j, 0, len(instructions), contains(instructions[j], result0.Assembly)) || result0.Assembly == "XORL AX, AX" && len(instructions) >= 2 && contains(instructions[len(instructions) - 2], "XORL AX, AX"))
 
 //@ func (p *parser) Parse(objDump string) ([]Syscall, error)   properties C16
+//@   deterministic C16
 //@   requires p != nil && p.Info != nil
-//@   modifies ghost.pos
+//@   modifies ghost.pos, ghost.snapLen, ghost.snapArr
 //@   requires ghost.pos == 0 && ghost.nlines >= 0 
 //@   calls p.parse in parseX86_64
+//@   ghost ghost.snapLen = ite(ghost.pos == ghost.cut + 1, len(syscalls), ghost.snapLen) at loop 1 body
+//@   ghost ghost.snapArr = ite(ghost.pos == ghost.cut + 1, arr(syscalls), ghost.snapArr) at loop 1 body
+//@   ensures @monotone {C16} result1 == nil && 0 <= ghost.cut && ghost.cut < ghost.nlines ==> ghost.snapLen <= len(result0) && forall(j, 0, ghost.snapLen, result0[j] == ghost.snapArr[j])
 //@   ensures @no_truncation {C16} ghost.scanErr != nil ==> result1 != nil
 //@   ensures @err_no_result {C16} result1 != nil ==> len(result0) == 0
 //@   ensures @names {C16} forall(j, 0, len(result0), has(p.SyscallNumbers, result0[j].Num) && p.SyscallNumbers[result0[j].Num] == result0[j].Name)
@@ -55,6 +72,7 @@ package disasm
 //@   assert @append_only {C16} len(syscalls) >= len(sc0) && forall(j, 0, len(sc0), syscalls[j] == sc0[j]) at loop 1 end
 //@   loop 1 match s.Scan()
 //@     invariant @pos 0 <= ghost.pos && ghost.pos <= ghost.nlines
+//@     invariant @cut {C16} ghost.pos > ghost.cut && ghost.cut >= 0 ==> 0 <= ghost.snapLen && ghost.snapLen <= len(syscalls) && forall(j, 0, ghost.snapLen, syscalls[j] == ghost.snapArr[j])
 //@     invariant @own own(syscalls) && own(instructions)
 //@     invariant @scope {C16} forall(j, 0, len(instructions), exists(m, 0, ghost.pos, instructions[j] == ghost.lines[m] && forall(q, m, ghost.pos, !prefixof("TEXT", ghost.lines[q]))))
 //@     invariant @names {C16} forall(j, 0, len(syscalls), has(p.SyscallNumbers, syscalls[j].Num) && p.SyscallNumbers[syscalls[j].Num] == syscalls[j].Name)
@@ -63,7 +81,8 @@ package disasm
 //@ func ExtractSyscalls(arch *arch.Info, objDump string) ([]Syscall, error)   properties C16 C18
 //@   requires arch != nil
 //@   requires ghost.pos == 0 && ghost.nlines >= 0 
-//@   modifies ghost.pos
+//@   modifies ghost.pos, ghost.snapLen, ghost.snapArr
+//@   ensures @monotone {C16} result1 == nil && 0 <= ghost.cut && ghost.cut < ghost.nlines ==> ghost.snapLen <= len(result0) && forall(j, 0, ghost.snapLen, result0[j] == ghost.snapArr[j])
 //@   ensures @no_truncation {C16} ghost.scanErr != nil ==> result1 != nil
 //@   ensures @err_no_result {C16} result1 != nil ==> len(result0) == 0
 //@   ensures @supported {C16} result1 == nil ==> arch.ID == i386Parser.ID || arch.ID == x86_64Parser.ID
